@@ -32,6 +32,7 @@ ASSUMPTIONS = [
 ]
 
 MAXC, MAXR = X.MAXC, X.MAXR
+WATCHDOG_S = 300  # block cases hold up to ~600 spellings; the box is shared
 BC = [1, 2, 26, 27, 702, 703, 16383, 16384]
 BR = [1, 2, 1048575, 1048576]
 _DOC_ERRORS = None
@@ -506,8 +507,11 @@ def enum_boundary(tier):
                                                'sm': 1365 if m1 else 0})
                         if rel:
                             sp.append({'f': f, 'd': 0, 'm1': 0, 'm2': 0, 'q': 'ctx', 'rcm': 10, 'plus': 15, 'sm': 0})
-                    yield {'k': 'rect', 'book': book, 'sheet': sheet, 'rect': rect, 'host': host, 'sp': sp,
-                           'embed': hi_ == 0}
+                    # every block starts with the plainest spelling so that all blocks are compared with it
+                    head = {'f': 'a1a1', 'd': 0, 'm1': 0, 'm2': 0, 'q': 'ctx'}
+                    for i in range(0, len(sp), 150):
+                        yield {'k': 'rect', 'book': book, 'sheet': sheet, 'rect': rect, 'host': host,
+                               'sp': [head] + sp[i:i + 150], 'embed': hi_ == 0 and i == 0}
 
 
 SHEET_CHARS = [chr(i) for i in range(32, 127) if chr(i) not in X.ILLEGAL_SHEET] + list('éÖжΩñ日１') + [' ', '—']
@@ -785,9 +789,9 @@ def parts(tier, seed):
         ('enum', 'columns', enum_cols(), 1, True),
         ('enum', 'boundary', enum_boundary(tier), 2, True),
         ('enum', 'sheetchars', enum_sheetchars(tier), 8, True),
-        ('hyp', 'spellings', 2600 if q else 120000),
-        ('hyp', 'near', 1200 if q else 40000),
+        ('hyp', 'spellings', 2600 if q else 80000),
+        ('hyp', 'near', 1200 if q else 30000),
         ('hyp', 'names', 500 if q else 10000),
         ('hyp', 'namepairs', 300 if q else 6000),
-        ('hyp', 'pairs', 600 if q else 20000),
+        ('hyp', 'pairs', 600 if q else 15000),
     ]
